@@ -38,7 +38,7 @@ def states_of(sc, obs):
             amt, st = sx.q(o[0]), [sx.bnd(b) for b in o[1]]
         elif t in (3, 4, 5):
             amt, st = sx.q(o[1]), [sx.bnd(b) for b in o[2]]
-        elif t in (7, 8, 10, 11, 13):
+        elif t in (7, 8, 10, 11, 13, 16):
             amt, st = None, [sx.bnd(b) for b in o[0]]
         else:
             amt, st = None, cur
@@ -437,7 +437,7 @@ def gen_c20(ctx, n):
         nonleaf = [i for i, o in enumerate(kb) if o[0] != 0]
         ops = []
         if rng.random() < 0.5:   # a full-model pass first (anything cached by it must not leak into restricted runs)
-            ops.append(rng.choice([[5, -1, 1], [5, -1, 30], [3, -1], [4, -1]]))
+            ops.append(rng.choice([[5, -1, 1], [5, -1, 30], [3, -1], [4, -1], [16]]))
         for _k in range(rng.choice([1, 2, 3])):
             src = rng.choice(nonleaf) if rng.random() < 0.5 else rng.choice(roots)
             if rng.random() < 0.3:
@@ -541,7 +541,7 @@ def c16_prop_part(ctx):
                 pre.append([11, r, rng.choice([[F(1), F(1)], [F(1), F(1)], [F(0), F(0)], [F(0), F(1)]])])
         ops = pre + [[5, -1, 30]]
         k1 = len(ops) - 1
-        ops += gen_prop.gen_ops(rng, kb, roots, rng.choice([0, 2, 4])) + [[9], [7], [5, -1, 30]]
+        ops += gen_prop.gen_ops(rng, kb, roots, rng.choice([0, 2, 4])) + ([[16]] if rng.random() < 0.5 else []) + [[9], [7], [5, -1, 30]]
         k2 = len(ops) - 1
         scs.append([3, kb, roots, data, ops, hidden or [], k1, k2])
         metas.append({"mode": mode, "hidden": hidden, "nobj": len(kb), "kinds": sorted(set(o[0] for o in kb))})
